@@ -161,6 +161,59 @@ def rule_acc(ctx, rep):
 DECL_V = re.compile(r"ironplc_dsl::common::(\w*Declaration\w*|LibraryElementKind|DataTypeDeclarationKind)")
 
 
+def variants_reaching(ctx, cb, c, arg):
+    """The value `arg` handed to call `c` in body `cb` is a whole enum of declarations (not a freshly built variant): which variants can it
+    hold there?  If the call sits on the Some side of `match helper(&value)` for a helper of the analyzer that maps the variant to an
+    Option, the variants for which the helper answers Some; otherwise every variant of the enum.  -> (adt short name, [variant names])"""
+    from vlib.mir import switch_info
+    p = op_place(arg)
+    if p is None:
+        return None
+    ty = re.sub(r"&('\S+ )?(mut )?", "", cb.local_ty(p[0]) or "").strip()
+    a = ctx.facts.adts.get(ty)
+    if not a or a["kind"] != "enum" or not DECL_V.search(ty):
+        return None
+    allv = [v["name"] for v in a["variants"]]
+    # helper(&value) -> Option<..> whose Some edge dominates the call
+    dom = cb.dominators().get(c.bb, set())
+    for hc in cb.calls():
+        if not (hc.callee or "").startswith("ironplc_analyzer::") or hc.bb == c.bb or not hc.args:
+            continue
+        hbs = ctx.prog.get(hc.callee)
+        if not hbs or "core::option::Option" not in (hbs[0].local_ty(0) or ""):
+            continue
+        hp = op_place(hc.args[0])
+        if hp is None or ty not in (cb.local_ty(hp[0]) or ""):
+            continue
+        # is the call on the Some side of a match on (a value derived from) the helper's result?
+        on_some = False
+        for d in dom:
+            si = switch_info(cb, d)
+            if si and si["kind"] == "disc" and si.get("adt") == "core::option::Option":
+                for succ, labs in si["edges"].items():
+                    if labs == ["Some"] and (succ in dom or succ == c.bb):
+                        on_some = True
+        if not on_some:
+            continue
+        hb = hbs[0]
+        some = []
+        for i in sorted(hb.reachable(0)):
+            si = switch_info(hb, i)
+            if not si or si["kind"] != "disc" or si.get("adt") != ty:
+                continue
+            entries = set(si["edges"])
+            for succ, labs in si["edges"].items():
+                region = hb.reachable(succ, avoid=tuple(entries - {succ}))
+                makes_some = any(x in region and st[0] == "=" and st[2][0] == "agg" and isinstance(st[2][1], dict) and st[2][1].get("adt") == "core::option::Option"
+                                 and st[2][1].get("variant") == "Some" for x, _, st in hb.all_stmts())
+                if makes_some:
+                    some += [l for l in labs if l in allv]
+            break
+        if some:
+            return ty.split("::")[-1], sorted(set(some))
+    return ty.split("::")[-1], allv
+
+
 def decl_instantiations(ctx, b):
     """for a generic helper: the declaration value types its callers (in the analyzer) instantiate it with"""
     out = set()
@@ -175,12 +228,19 @@ def decl_instantiations(ctx, b):
                     if m:
                         # the concrete declaration handed in: variant of the aggregate argument if visible
                         what = t.strip().split("::")[-1]
+                        whole = None
                         for a in c.args:
                             p = op_place(a)
                             d = cb.single_def(p[0]) if p and not p[1] else None
                             if d and d[0] == "stmt" and d[3][0] == "agg" and d[3][1].get("k") == "adt" and DECL_V.search(d[3][1]["adt"]):
                                 what = "%s::%s" % (d[3][1]["adt"].split("::")[-1], d[3][1]["variant"])
-                        out.add(what)
+                            elif whole is None:
+                                whole = variants_reaching(ctx, cb, c, a)
+                        if "::" not in what and whole:
+                            for v in whole[1]:
+                                out.add("%s::%s" % (whole[0], v))
+                        else:
+                            out.add(what)
     return out
 
 
@@ -221,9 +281,18 @@ def rule_insert(ctx, rep):
         if b.f["crate"] != "ironplc_analyzer":
             continue
         for c in sorted(b.calls(), key=lambda c: (c.loc[0], c.loc[1])):
-            if not (c.callee and c.callee.endswith(("HashMap::insert", "BTreeMap::insert"))):
+            collected = False
+            if c.callee and c.callee.endswith(("HashMap::insert", "BTreeMap::insert")):
+                ga = split_top((c.ga or "[]").strip("[]"))
+            elif (c.callee or c.u or "").split("::")[-1] in ("collect", "from_iter") and not c.dest[1]:
+                # the same loop written as an iterator chain: collecting pairs into a map keeps the last pair of a key, like an insert whose result is ignored
+                mt = re.match(r"^std::collections::(?:hash::map::)?HashMap<(.*)>$|^alloc::collections::(?:btree::map::)?BTreeMap<(.*)>$", (b.local_ty(c.dest[0]) or "").strip())
+                if not mt:
+                    continue
+                ga = split_top(mt.group(1) or mt.group(2))
+                collected = True
+            else:
                 continue
-            ga = split_top((c.ga or "[]").strip("[]"))
             if len(ga) < 2:
                 continue
             k, v = ga[0].strip(), ga[1].strip()
@@ -233,7 +302,7 @@ def rule_insert(ctx, rep):
             whats = []
             if DECL_V.search(v):
                 what = v.split("::")[-1]
-                vp = op_place(c.args[2])
+                vp = op_place(c.args[2]) if not collected and len(c.args) > 2 else None
                 vd = b.single_def(vp[0]) if vp and not vp[1] else None
                 if vd and vd[0] == "stmt" and vd[3][0] == "agg" and vd[3][1].get("k") == "adt":
                     what += "::" + vd[3][1]["variant"]
@@ -243,8 +312,8 @@ def rule_insert(ctx, rep):
             if not whats:
                 continue
             dl = c.dest[0]
-            used = [kk for _, kk, p in b.place_uses() if p[0] == dl and kk not in ("write", "drop")]
-            guarded = failed_lookup_guard(b, c)
+            used = [] if collected else [kk for _, kk, p in b.place_uses() if p[0] == dl and kk not in ("write", "drop")]
+            guarded = False if collected else failed_lookup_guard(b, c)
             for what in whats:
                 n = counts[(fn, what)] = counts.get((fn, what), 0) + 1
                 inst = "%s|insert %s#%d" % (fn, what, n)
@@ -334,6 +403,12 @@ def rule_drain(ctx, rep):
             vd = b.single_def(vp[0]) if vp and not vp[1] else None
             if vd and vd[0] == "stmt" and vd[3][0] == "agg":
                 kinds.append((vd[3][1]["adt"].split("::")[-1], vd[3][1]["variant"], c))
+            else:
+                # the declaration is handed on whole (`match name_of(&decl) { Some(name) => insert(name, decl), .. }`)
+                whole = variants_reaching(ctx, b, c, c.args[2])
+                if whole:
+                    for v in whole[1]:
+                        kinds.append((whole[0], v, c))
     # leftovers appended? (maps moved into a call after the merge: into_values / drain / extend(map))
     leftovers = False
     for c in b.calls():
